@@ -43,6 +43,12 @@ def case(draw):
     if draw(st.sampled_from([True, False])):
         spec['eqs'].append(['kk', draw(st.sampled_from(['2.0*k + 1.0', '0.5*k', 'k*k - 1.0'])), 'leaf'])
         spec['cert']['lam']['kk'] = 0.0
+    if draw(st.sampled_from([True, False, False])):
+        # ordinary variable names that happen to be the names of the emitted module's local variables
+        first = [e[0] for e in spec['eqs'] if e[2] == 'sim'][0]
+        nm_ = draw(st.sampled_from(['err', 'cnt', 'err', 'new_vector']))
+        spec['eqs'].append([nm_, draw(st.sampled_from(['%s - 1.0', '0.5*%s', '-%s', '100.0 + %s'])) % first, 'leaf'])
+        spec['cert']['lam'][nm_] = 0.0
     consts_ = [e for e in spec['eqs'] if e[2] == 'const']
     if consts_ and draw(st.sampled_from([True, False])):
         # a parameter written as a number in any literal form, used as a divisor: a constant is known from the start
